@@ -299,10 +299,11 @@ class Path:
     env: Dict[str, object] = field(default_factory=dict)   # local name -> known constant
     facts: List[Tuple[str, bool]] = field(default_factory=list)  # normalised atoms known on the path
     active: List[Tuple[str, bool]] = field(default_factory=list)  # decisions not yet invalidated by a write
+    defs: Dict[str, str] = field(default_factory=dict)   # local name -> text of the boolean expression it currently names
 
     def copy(self) -> "Path":
         return Path(list(self.events), list(self.decisions), self.end, self.ret, self.exc, dict(self.env),
-                    list(self.facts), list(self.active))
+                    list(self.facts), list(self.active), dict(self.defs))
 
     @property
     def kinds(self) -> List[str]:
@@ -320,6 +321,16 @@ class Path:
                 if u(a) == text:
                     res = pol
         return res
+
+
+def _pure_call(c: ast.AST) -> bool:
+    """calls that only read (len(x), isinstance(x, T), x.cancelled()) may appear in a named condition"""
+    if not isinstance(c, ast.Call):
+        return False
+    f = c.func
+    if isinstance(f, ast.Name) and f.id in ("len", "isinstance", "callable", "bool", "all", "any", "hasattr"):
+        return True
+    return isinstance(f, ast.Attribute) and f.attr in ("cancelled", "is_set", "done", "idle")
 
 
 MAX_PATHS = 20000
@@ -501,11 +512,26 @@ class PathEnum:
                 return a != b
         return None
 
-    def decide(self, paths: List[Path], test: ast.AST, pol: bool) -> List[Path]:
-        key = u(test)
-        new_facts = [(u(e), p_) for e, p_ in atoms(test, pol)]
+    @staticmethod
+    def _subst(test: ast.AST, defs: Dict[str, str]) -> ast.AST:
+        """Replace locals that currently name a boolean expression (`c = a and b`; `if c:`) by that expression."""
+        if not defs or not any(isinstance(n, ast.Name) and n.id in defs for n in ast.walk(test)):
+            return test
+        import copy as _copy
+
+        class _S(ast.NodeTransformer):
+            def visit_Name(self, n):
+                if isinstance(n.ctx, ast.Load) and n.id in defs:
+                    return ast.parse(defs[n.id], mode="eval").body
+                return n
+        return _S().visit(_copy.deepcopy(test))
+
+    def decide(self, paths: List[Path], test0: ast.AST, pol: bool) -> List[Path]:
         out = []
         for p in paths:
+            test = self._subst(test0, p.defs)
+            key = u(test)
+            new_facts = [(u(e), p_) for e, p_ in atoms(test, pol)]
             ok = True
             v = self._eval(test, p.env)
             if v is not None and v != pol:
@@ -560,6 +586,7 @@ class PathEnum:
                         else:
                             p.env.pop(n.id, None)
                         p.facts = [(x, y) for (x, y) in p.facts if n.id not in _names_of_text(x)]
+                        p.defs.pop(n.id, None)
 
     def kill(self, paths: List[Path], st: ast.stmt) -> None:
         self._update_env(paths, st)
@@ -571,6 +598,23 @@ class PathEnum:
         for p in paths:
             p.active = self._filter(p.active, names, has_call)
             p.facts = self._filter(p.facts, names, has_call)
+            if p.defs:
+                kept = self._filter([(v, k) for k, v in p.defs.items()], names, has_call)
+                p.defs = {k: v for v, k in kept}
+        self._register_def(paths, st)
+
+    def _register_def(self, paths: List[Path], st: ast.stmt) -> None:
+        tg, val = [], None
+        if isinstance(st, ast.Assign):
+            tg, val = st.targets, st.value
+        elif isinstance(st, ast.AnnAssign) and st.value is not None:
+            tg, val = [st.target], st.value
+        if len(tg) == 1 and isinstance(tg[0], ast.Name) and isinstance(val, (ast.BoolOp, ast.Compare, ast.UnaryOp)) \
+                and not (isinstance(val, ast.UnaryOp) and not isinstance(val.op, ast.Not)) \
+                and not any(isinstance(x, (ast.Call, ast.NamedExpr, ast.Await)) and not _pure_call(x) for x in ast.walk(val)):
+            for p in paths:
+                if tg[0].id not in {n.id for n in ast.walk(val) if isinstance(n, ast.Name)}:
+                    p.defs[tg[0].id] = u(self._subst(val, p.defs))
 
     @staticmethod
     def _filter(items, names, has_call):
